@@ -2,6 +2,7 @@ package main
 
 import (
 	"fmt"
+	gobinlog "github.com/Breeze0806/gobinlog"
 	"strings"
 )
 
@@ -43,6 +44,23 @@ func intHeavyTables(r *RNG, n int) []*hTable {
 			}
 			ts = append(ts, v)
 		}
+		// ANOTHER table under the same id (table ids start over when the master restarts; a replica reading through
+		// binlog files written before and after the restart sees the id again): its own name, columns, signedness and
+		// possibly another column count. Every change of the table an id stands for is announced.
+		if r.Chance(1, 3) {
+			v := &hTable{id: t.id, db: t.db, name: t.name + "r"}
+			if r.Chance(1, 3) {
+				v.db, v.name = t.db+"r", t.name // the same table name in another schema, under the same id
+			}
+			nv := len(t.cols)
+			if r.Bool() {
+				nv = r.Range(1, 9)
+			}
+			for c := 0; c < nv; c++ {
+				v.cols = append(v.cols, hCol{typ: []int{1, 2, 9, 3, 8}[r.Intn(5)], nullable: true, name: fmt.Sprintf("r%d_%s", c, randName(r, 2)), unsigned: r.Bool()})
+			}
+			ts = append(ts, v)
+		}
 		// the same table NAME in another schema (sharded / per-tenant schemas): its own id, the same column count,
 		// other column names and the opposite signedness - only the (database, table) pair identifies a table
 		if r.Chance(1, 3) {
@@ -58,9 +76,43 @@ func intHeavyTables(r *RNG, n int) []*hTable {
 	return ts
 }
 
+// expectedMapperCalls: the lookups one attempt over the whole history must make (independent re-statement of "names
+// and signedness come from the table mapper": asked when a table map announces a table its id does not stand for).
+func expectedMapperCalls(h *hist) []string {
+	var calls []string
+	cur := map[uint64]string{}
+	for _, u := range h.units {
+		var rows []*hRows
+		for _, ch := range u.changes {
+			if ch.rows != nil {
+				rows = append(rows, ch.rows)
+			}
+		}
+		if u.rows != nil {
+			rows = append(rows, u.rows)
+		}
+		for _, c := range rows {
+			if !c.announce {
+				continue
+			}
+			t := h.tables[c.table]
+			k := t.db + "\x00" + t.name
+			if cur[t.id] != k {
+				calls = append(calls, k)
+				cur[t.id] = k
+			}
+		}
+	}
+	return calls
+}
+
 func genAttributionHistory(r *RNG, cfg string) *hist {
+	return genAttributionHistoryOver(r, cfg, intHeavyTables(r, r.Range(1, 3)))
+}
+
+func genAttributionHistoryOver(r *RNG, cfg string, tables []*hTable) *hist {
 	h := &hist{cfg: cfg, ext: map[string][]string{}, pad: r.Bool()}
-	h.tables = intHeavyTables(r, r.Range(1, 3))
+	h.tables = tables
 	o := histOpts{maxRows: 3}
 	ts := uint32(1600000000)
 	nu := r.Range(2, 6)
@@ -110,41 +162,85 @@ func init() {
 					o.FindingKey = "attribution"
 					return o
 				}
-				// the mapper is asked once per table id, with the announced names
+				// the mapper is asked exactly when an announced table map names a table the id does not stand for yet
+				// (a new id, or an id now announced under another database / table name), in that order
 				_, _, mcalls := runParse(hh, splitPackets(resp["packets"]), firstFile, 4, -1, "", false)
-				want := map[string]map[uint64]bool{} // table name -> ids it was announced under
-				for _, u := range hh.units {
-					for _, ch := range u.changes {
-						if ch.rows != nil {
-							t := hh.tables[ch.rows.table]
-							if want[t.db+"\x00"+t.name] == nil {
-								want[t.db+"\x00"+t.name] = map[uint64]bool{}
-							}
-							want[t.db+"\x00"+t.name][t.id] = true
-						}
-					}
-				}
-				got := map[string]int{}
-				for _, m := range mcalls {
-					got[m]++
-				}
-				for k, ids := range want {
-					if got[k] != len(ids) {
-						o.OracleOK = false
-						o.Note = fmt.Sprintf("the table mapper was asked %d times for %s (want once per table id, at its first announcement: %d)", got[k], k, len(ids))
-						o.FindingKey = "mapper-calls"
-					}
-				}
-				for k := range got {
-					if want[k] == nil {
-						o.OracleOK = false
-						o.Note = "the table mapper was asked for a table that was never announced: " + k
-						o.FindingKey = "mapper-calls"
-					}
+				if want := expectedMapperCalls(hh); strings.Join(mcalls, "|") != strings.Join(want, "|") {
+					o.OracleOK = false
+					o.Note = fmt.Sprintf("table mapper calls %q, want %q (one per announcement of a table its id does not stand for yet)", clip(strings.Join(mcalls, "|"), 300), clip(strings.Join(want, "|"), 300))
+					o.FindingKey = "mapper-calls"
 				}
 				return o
 			}
 			cs = append(cs, c)
+		}
+		// several attempts on ONE Streamer (what a caller does after a disconnect). Between the attempts the tables
+		// were altered and the master restarted: the same ids and names now stand for other definitions (another
+		// column count, or other column names and signedness), and the mapper answers with the current ones. Each
+		// attempt must attribute and name by its own announcements and its own lookups.
+		for i := 0; i < n/3; i++ {
+			cfg := allCfgs[i%len(allCfgs)]
+			h1 := genAttributionHistory(r, cfg)
+			var t2 []*hTable
+			for _, t := range h1.tables {
+				v := &hTable{id: t.id, db: t.db, name: t.name}
+				cols := append([]hCol(nil), t.cols...)
+				switch r.Intn(3) {
+				case 0:
+					cols = append(cols, hCol{typ: 3, nullable: true, name: "added"})
+				case 1:
+					if len(cols) > 1 {
+						cols = cols[:len(cols)-1]
+					}
+				}
+				for k := range cols {
+					if r.Bool() {
+						cols[k].name += "_v2"
+						cols[k].unsigned = !cols[k].unsigned && cols[k].typ != 15
+					}
+				}
+				v.cols = cols
+				t2 = append(t2, v)
+			}
+			// (definitions sharing db and name inside one attempt must agree on names and count: keep the first of each)
+			seenName := map[string]bool{}
+			var t2u []*hTable
+			for _, t := range t2 {
+				if !seenName[t.db+"\x00"+t.name] {
+					seenName[t.db+"\x00"+t.name] = true
+					t2u = append(t2u, t)
+				}
+			}
+			h2 := genAttributionHistoryOver(r, cfg, t2u)
+			hs := []*hist{h1, h2}
+			var lines []string
+			var resps []map[string]string
+			bad := false
+			for _, h := range hs {
+				line := h.line(posStr(firstFile, 4))
+				ans, err := theDriver.Ask(line)
+				if err != nil || strings.HasPrefix(ans, "bad-") {
+					bad = true
+					break
+				}
+				lines, resps = append(lines, line), append(resps, fields(ans))
+			}
+			if bad {
+				continue
+			}
+			m := &tblMapper{}
+			s, _ := gobinlog.NewStreamer("unused", 7, m)
+			ok, note := true, ""
+			for k, h := range hs {
+				m.tables = h.tables
+				impl, calls, _ := runParseOn(s, m, splitPackets(resps[k]["packets"]), firstFile, 4, -1, false)
+				want := "nil@" + resps[k]["endpos"] + "#" + resps[k]["spec"]
+				if impl != want && ok {
+					ok = false
+					note = fmt.Sprintf("attempt %d on the same Streamer: %s", k+1, firstDiff(calls, strings.Split(resps[k]["spec"], "&"), impl, want))
+				}
+			}
+			col.AddScenario("attempts-on-one-streamer", strings.Join(lines, " ;; then, same Streamer, tables altered: "), true, ok, true, note, "attribution-across-attempts", "", "")
 		}
 		// "a mapper table whose column count disagrees with the table map is rejected with an error instead of being
 		// mis-attributed" — also when the disagreement appears later: the id is announced again with fewer / more
